@@ -1248,6 +1248,26 @@ func (c *Ctx) JSONDoc() *Doc {
 				Responses: map[string]*Response{"200": {Description: Str("ok"), Content: JSONContent(prev)}}}}
 		}
 	}
+	// an allOf whose first member is a $ref to an object without required properties:
+	// with none of them set that member encodes to nothing and the next member's
+	// properties are the first ones of the document (separator handling)
+	if rapid.IntRange(0, 1).Draw(c.T, "allof_empty_first") == 0 {
+		base := &Schema{Type: "object", Properties: map[string]*Schema{c.SafeName("p", "emptyfirstopt"): {Type: "string"}, c.SafeName("p", "emptyfirstopt"): {Type: "integer", Format: "int32"}}}
+		bref := c.AddSchema(c.CompName("Meta", "emptyfirstbase"), base)
+		own := &Schema{Type: "object", Properties: map[string]*Schema{c.SafeName("p", "emptyfirstown"): {Type: "integer", Format: "int64"}, c.SafeName("p", "emptyfirstown"): {Type: "string"}}}
+		own.Required = []string{SortedKeys(own.Properties)[0]}
+		level := &Schema{AllOf: []*Schema{bref, own}}
+		if c.AllowSchema(bref, "allof-member") && c.AllowSchema(level, "component") {
+			lref := c.AddSchema(c.CompName("Entry", "emptyfirstlevel"), level)
+			if c.AllowSchema(lref, "request-body") && c.AllowSchema(lref, "response-body") {
+				d.Paths["/"+c.PlainName("entry", "emptyfirstpath")] = &PathItem{Post: &Operation{RequestBody: &RequestBody{Required: true, Content: JSONContent(lref)},
+					Responses: map[string]*Response{"200": {Description: Str("ok"), Content: JSONContent(lref)}}}}
+			}
+			c.Tag("json:allOf-first-member-without-required")
+		} else {
+			delete(d.Components.Schemas, strings.TrimPrefix(bref.Ref, RefSchemas))
+		}
+	}
 	// a nullable component list of objects without required properties, held by a
 	// property: its smallest non-null values are [] and [{}]
 	if rapid.IntRange(0, 2).Draw(c.T, "nullable_list_component") == 0 {
